@@ -207,7 +207,7 @@ example : MgrNotAll {} := by
   intro t ht e
   subst e
   revert ht; decide
-example : OrderGood {} := fun l hl => ⟨hl, fun _ h => h⟩
+example : OrderGood {} := fun l hl => ⟨hl, fun _ => Iff.rfl⟩
 def exHist2 : List Round :=
   [{ accept := true }, { accept := true }, { accept := true },
    { reads := [exConn 1 1 10, exConn 2 2 11, exConn 3 3 12], writable := [1, 2, 3] },
